@@ -236,6 +236,9 @@ impl PreSetCollection for Vec<String> {
 impl OutputOptions {
     #[verifier::external_body]
     pub fn get_processor(&self, writer: vio::Out) -> (r: std::result::Result<Box<dyn Process>, OutputStyleValidationError>)
+        // C20 / C06: rows are written to the designated output stream only — the printer (the only stage that writes: unit PRINT)
+        // must be created on it. A precondition of the callee, i.e. an obligation of go()'s call site.
+        requires writer.fd() == 1, // @obl GO.rows_to_stdout : C20 C06
         ensures r is Ok ==> r->Ok_0.inv() && r->Ok_0.eager() && !r->Ok_0.must_break(),
     { unimplemented!() }
 }
@@ -285,6 +288,14 @@ pub open spec fn is_pipeline_of(r: Box<dyn Process>, p: Box<dyn Process>, cli: C
 }
 impl<S: Read> Master<S> {
     pub closed spec fn cli_spec(&self) -> &Cli { &self.cli }
+    // the handles the run was given: `stdout` is the designated output stream, `stderr` the designated diagnostics stream
+    pub closed spec fn wired(&self) -> bool { self.stdout.fd() == 1 && self.stderr.fd() == 2 }
+    pub closed spec fn out_h(&self) -> vio::Out { self.stdout }
+    pub closed spec fn err_h(&self) -> vio::Out { self.stderr }
+}
+impl RegexCache {
+    #[verifier::external_body]
+    pub fn new(size: usize) -> (r: Self) { unimplemented!() }
 }
 impl Cli {
     // split -> filter -> select -> unique -> sort -> skip/take -> group|merge, after --set
@@ -320,7 +331,7 @@ impl<S: Read> Master<S> {
 //@@ must-contain "let splitter = Splitter::from_str(splitter)?;"
 //@@ prologue
     pub fn go_assemble(&self) -> (r: Result<Box<dyn Process>>)
-        requires self.cli_spec().no_overflow(),
+        requires self.cli_spec().no_overflow(), self.wired(),
         ensures
             r is Ok ==> r->Ok_0.inv(), // @obl GO.inv : C03
             // the chain handed to the read loop is the STARTED documented composition, whatever the order of options: the slice
@@ -430,7 +441,7 @@ impl<S: Read> Master<S> {
 //@@ to "process.complete()?;"
 //@@ prologue
     pub fn go_drive(&self, started: Box<dyn Process>) -> (r: Result<Box<dyn Process>>)
-        requires started.inv(),
+        requires started.inv(), self.wired(),
             // "the standard input is shorter than 2^64 bytes" (line / column / value counters are machine integers)
             forall|s: S| #[trigger] source(s).len() + 1 < usize::MAX,
         ensures
@@ -476,6 +487,31 @@ impl<S: Read> Master<S> {
         proof { assert(fed_box(started, last, fed)); }
 //@@ endslice
 }
+
+
+// ---- the entry point jawk::go and Master::new: the handles go() is given become the fields the slices above use
+impl<S: Read> Master<S> {
+//@@ fn go.master_new = src/lib.rs :: impl<S: Read> Master<S> :: fn new
+//@@ safety C20 C06
+//@@ ret r
+//@@ rewrite dyn_write stdin_factory
+//@@ header
+        ensures r.out_h() == stdout && r.err_h() == stderr && *r.cli_spec() == cli, // @obl GO.new.fields : C20 C06
+//@@ endfn
+    // Master::go as a whole: the two verified slices above + the help branch; here only its precondition matters
+    #[verifier::external_body]
+    pub fn go(&self) -> (r: Result<()>)
+        requires self.wired(), // @obl GO.entry.wired : C20 C06
+    { unimplemented!() }
+}
+//@@ fn go.entry = src/lib.rs :: fn go
+//@@ safety C20 C06
+//@@ ret r
+//@@ rewrite dyn_write stdin_factory
+//@@ header
+    // what the executable establishes at its call site (unit MAIN): stdout is the output stream, stderr the diagnostics stream
+    requires stdout.fd() == 1, stderr.fd() == 2,
+//@@ endfn
 
 } // verus!
 fn main() {}
